@@ -126,6 +126,13 @@ func classPool() []*class {
 		{name: "map-nan-key", conditional: true,
 			a: []rep{code("[&(num NaN)=v]")},
 			b: []rep{code("[&(- (num +Inf) (num +Inf))=v]"), goval("[&-NaN=v]", vals.MakeMap(math.Copysign(math.NaN(), -1), "v"))}},
+		{name: "typed-field-map-of-zero", leaf: "+0.0/-0.0",
+			a: []rep{goval("fmScore{/p, 0.0}", fmScore{"/p", 0.0}), code("[&path=/p &score=(num 0.0)]")},
+			b: []rep{goval("fmScore{/p, -0.0}", fmScore{"/p", math.Copysign(0, -1)}), code("[&score=(num -0.0) &path=/p]"),
+				goval("MakeMap -0.0", vals.MakeMap("path", "/p", "score", math.Copysign(0, -1)))}},
+		{name: "typed-field-map",
+			a: []rep{goval("fmTyped", fmTyped{"/q", 1.5, 3, true, "x"}), code("[&path=/q &score=(num 1.5) &count=(num 3) &flag=$true &extra=x]")},
+			b: []rep{goval("fmAny", fmAny{"/q", 1.5, 3, true, "x"}), code("[&extra=x &flag=(eq a a) &count=(+ 1 2) &score=(/ 3.0 2) &path=/q]")}},
 		{name: "ui-key",
 			a: []rep{goval("ui.K('A', Ctrl)", ui.K('A', ui.Ctrl))},
 			b: []rep{goval(`ParseKey("Ctrl-A")`, ctrlA)}},
